@@ -929,6 +929,17 @@ impl CraneliftCompiler {
                 // Do not delegate the check to the verifier, since registered functions can be
                 // changed after the program has been verified.
                 ebpf::CALL => {
+                    if insn.src != 0 {
+                        // src == 1 is an eBPF-to-eBPF call: not supported by this back end. It must
+                        // not be mistaken for a call to the helper whose id equals the displacement.
+                        return Err(Error::new(
+                            ErrorKind::Other,
+                            format!(
+                                "[CRANELIFT] Error: unsupported call type #{} (insn #{})",
+                                insn.src, insn_ptr
+                            ),
+                        ));
+                    }
                     let func_ref = self
                         .helper_func_refs
                         .get(&(insn.imm as u32))
